@@ -717,7 +717,8 @@ class Conv:
                 finally:
                     self.on_call = oc
             self.on_call(n, name, recv, args, kw, rrf)
-        if name is None:
+        if name is None or (isinstance(n.func, ast.Name) and n.func.id in self.env):
+            # call through an expression / a local bound to a value
             return t.atom('callexpr', tuple([self.expr(n.func)] + args + kwv),
                           extra=kwn or None)
         recv_rf = None
